@@ -106,6 +106,12 @@ class Ctx:
         eng = os.environ.get('VP_ENGINE')
         if eng:
             jobs = [j for j in jobs if re.search(eng, str(j.meta.get('engine')))]
+        cf = os.environ.get('VP_CONFIG')
+        if cf:
+            jobs = [j for j in jobs if re.search(cf, str(j.meta.get('config')))]
+        jn = os.environ.get('VP_JOB')
+        if jn:
+            jobs = [j for j in jobs if re.search(jn, j.name)]
         if not jobs:
             return
         t = time.time()
